@@ -893,7 +893,8 @@ def remake_page(index, page_groups, context, root_box, html):
         (context.reported_footnotes and resume_at is None))
     name = '' if blank else next_page['page']
     side = 'right' if right_page else 'left'
-    _update_page_groups(page_groups, resume_at, next_page, root_box)
+    if not blank:
+        _update_page_groups(page_groups, resume_at, next_page, root_box)
     groups = tuple((name, index) for name, index, _ in page_groups)
     page_type = PageType(side, blank, name, index, groups)
     set_page_type_computed_styles(page_type, html, context.style_for)
